@@ -118,6 +118,61 @@ def run_lr_case(case):
 BATTERY = ['', 'y', 'xy', 'yy', 'x y y', 'y x y', 'x', 'y y y', 'x x y']
 
 
+def guard_family(ck, tier):
+    """Cycles hidden behind a call to a rule that can match empty are bounded at run time by a guard entry in the memo table.  A cut
+    prunes memo entries: the guards must survive it.  PegMachine keeps them (Leaf "cut": guard entries are not pruned); the real engine
+    must agree with the machine on grammars where a cut that does not commit the rule's own choice is reached before the hidden cycle."""
+    import itertools
+    from ..absgrammar import all_texts, alt, and_, call, chars_of, cut, grammar, group, make_cfg, opt, rule, seq, star, to_ebnf, tok
+    from ..impl import run_model_case
+    from ..pegcheck import Jobs, default_case, machine_vs_impl, run_impl, run_machine, with_marks
+    x, q, z, y, w = tok('x'), tok('q'), tok('z'), tok('y'), tok('w')
+    variants = {
+        'cut in optional': (seq(opt(seq(x, cut(), q)), z), []),
+        'cut in closure': (seq(star(seq(x, cut(), q)), z), []),
+        'cut in lookahead': (seq(and_(seq(x, cut())), q), []),
+        'cut in group choice': (seq(group(alt(seq(x, cut(), q), q)), z), []),
+        'cut in called rule': (seq(call('b'), z), [rule('b', seq(x, cut(), q))]),
+        'cut in optional call': (seq(opt(call('b')), z), [rule('b', seq(x, cut(), q))]),
+    }
+    texts = all_texts(['x', 'q', 'z', 'y', 'w'], 2 if tier == 'quick' else 3) + [list('xqz'), list('xy'), list('wxy'), list('xqzy')]
+    gs, labels = [], []
+    for (name, (first, extra)), hidden in itertools.product(variants.items(), ('seq', 'opt')):
+        e_rule = rule('e', opt(w)) if hidden == 'opt' else rule('e', star(w))
+        g = grammar(rule('a', alt(first, seq(call('e'), call('a'), y), x)), e_rule, *extra)
+        gs.append(g)
+        labels.append(f'{name} / nullable rule by {hidden}')
+    marked = with_marks(gs)
+    jobs, cases = Jobs(), []
+    for g0, g in zip(gs, marked):
+        cfg = make_cfg(chars_of(g, texts), nameguard=False)
+        cfg.update({'maxmiss': 1, 'prune': True, 'memoize': True})
+        jobs.add(g, cfg, texts, start='a')
+        cases.append(default_case(to_ebnf(g0), texts, settings={'nameguard': False}, start='a', wrap=False, timeout=20, reclimit=1500))
+    r, mach = run_machine(jobs)
+    ck.add_tlc(r, 'PegMachineMC (left-recursion guards under cuts)')
+    if r.violated:
+        ck.violation({'kind': 'schedule', 'inputs': {'spec': 'PegMachineMC'}, 'expected': 'Refines, FramesBalanced, StepBound, CutContained',
+                      'observed': r.violated, 'trace': r.trace[:60]}, key='machine' + str(r.violated))
+        return
+    impl = run_impl(cases, fn=run_model_case, chunk=1)
+    n = 0
+    for j, (c, im, lab) in enumerate(zip(cases, impl, labels), 1):
+        if im['compile']['k'] != 'ok':
+            ck.violation({'kind': 'parse', 'inputs': {'grammar': c['ebnf']}, 'expected': 'compiles', 'observed': im['compile']}, key='gcomp' + c['ebnf'])
+            continue
+        for t, ir in enumerate(im['res'], 1):
+            n += 1
+            why = machine_vs_impl(mach[j][t], ir['plain'])
+            if why or ir['plain'].get('k') == 'exc':
+                ck.violation({'kind': 'parse', 'inputs': {'grammar': c['ebnf'], 'text': ''.join(c['texts'][t - 1]), 'family': lab},
+                              'expected': mach[j][t]['r'], 'observed': ir['plain'],
+                              'why': why or 'foreign exception (unbounded recursion?)', 'spec': 'PegMachine (guard entries survive cuts)'},
+                             key='guard' + c['ebnf'])
+    ck.count(evaluations=n, traces=n)
+    ck.notes['guard_family_cases'] = n
+
+
 def run(tier):
     ck = Check('C16', tier)
     gs = universe(tier, ck.seed)
@@ -173,6 +228,7 @@ def run(tier):
                 if proviso and lr and out == 'RecursionError' and ck.known('KF-C16-2', what):
                     continue
                 bad(f'parsing {text!r}: {out}', 'a result or a parse failure', out, 'battery' + out)
+    guard_family(ck, tier)
     ck.notes['grammars'] = len(gs)
     ck.notes['left_recursive_grammars'] = nlr
     ck.cov['rule'] = (f'{len(gs)} rule graphs: ' + 'all 1-rule grammars, ' + ('every 28th' if tier == 'quick' else 'all') + ' 2-rule grammars whose bodies are 1-2 options '
